@@ -70,6 +70,15 @@ pub struct Config {
     /// before the accept loop runs again
     #[serde(default)]
     pub burst: usize,
+    /// scripted services turn Pending by themselves right after each call
+    #[serde(default)]
+    pub busy_after_call: bool,
+    /// a service factory fails when it is asked to re-create a failed service
+    #[serde(default)]
+    pub factory_fails_on_restart: bool,
+    /// worker slots may be frozen (never polled: a worker thread stuck in a synchronous handler)
+    #[serde(default)]
+    pub freeze: bool,
 }
 
 fn yes() -> bool {
@@ -251,6 +260,9 @@ pub fn poll_worker(sh: &Rc<Shared>, slot: usize) {
         ev!(ctx, "poll worker w{idx}#{slot}");
         ctx.bump("worker_polls");
     });
+    if let Some(l) = sh.svc_log.borrow_mut().get_mut(slot) {
+        l.push(crate::world::SvcEv::PollBegin);
+    }
     let res = catch_unwind(AssertUnwindSafe(|| fut.as_mut().poll(&mut cx)));
     sh.current_slot.set(prev);
     match res {
@@ -1032,6 +1044,7 @@ async fn exec_action(sim: &mut Sim, a: Action) {
         Action::Pause => {
             sim.paused_cmds += 1;
             let f = sim.handle.pause();
+            sim.o.last_pause_cmd = Some(true);
             sim.ack_futs.push((Box::pin(f), true));
             sh.ctx(|ctx| {
                 ev!(ctx, "cmd pause");
@@ -1041,6 +1054,7 @@ async fn exec_action(sim: &mut Sim, a: Action) {
         Action::Resume => {
             sim.paused_cmds += 1;
             let f = sim.handle.resume();
+            sim.o.last_pause_cmd = Some(false);
             sim.ack_futs.push((Box::pin(f), false));
             sh.ctx(|ctx| {
                 ev!(ctx, "cmd resume");
@@ -1126,6 +1140,10 @@ async fn exec_action(sim: &mut Sim, a: Action) {
             let w = {
                 let mut is = sh.instances.borrow_mut();
                 is[i].ready = r;
+                let slot = is[i].slot;
+                if let Some(l) = sh.svc_log.borrow_mut().get_mut(slot) {
+                    l.push(crate::world::SvcEv::Flip(i));
+                }
                 is[i].waker.take()
             };
             if let Some(w) = w {
